@@ -2,6 +2,8 @@ import Comdex.Lemmas.LendRates
 import Comdex.Lemmas.Accrual
 import Comdex.Lemmas.AccrualErr
 import Comdex.Lemmas.VaultAccrual
+import Comdex.Lemmas.LockerAccrual
+import Comdex.Lemmas.LendAccrual
 /-!
 # C18 — Interest and savings accrual is non-negative, monotone and zero over zero time
 
@@ -41,7 +43,37 @@ Property clause → theorem
   stamp incl. `BlockHeight = 0`                                           → `accrual_subadditive`
 * "triggering interest calculation more often cannot make a position owe more" at the level of `MsgVaultInterestCalc`
                                                                           → `more_frequent_triggering_not_more`
-* fee switched off and on again: the span without fee is not accrued     → `fee_toggle_restarts_clock`
+* fee switched off and on again: the span without fee is not accrued     → `fee_toggle_restarts_clock` (idle vault)
+  FALSE for a vault deposited into (withdrawn from, drawn, repaid) while the fee is zero: `MsgDeposit` re-stamps the vault with the
+  current height and the zero-fee window is charged at the new fee       → `fee_zero_window_touched_counterexample` (reproduced, D36)
+(d) the bookkeeping around (b) for LOCKERS (`Model/LockerAccrual.lean`: collector entry rate + stamp, locker balance + stamp with the
+    `BlockHeight = 0` flag, tracker, net fees; the five locker messages, the rate update `WasmUpdateCollectorLookupTable` with its
+    sweep `LockerIterateRewards`, whitelist on / off), over ALL histories of {create, deposit, withdraw, close, reward-calc, rate
+    update, time passing}
+* savings are credited only for time at a non-zero rate, at the rate in force, never twice: for every rate value r ≠ 0 the
+  seconds credited at r + the seconds still claimable at r ≤ the seconds the rate has been r
+                                                                          → `savings_only_for_time_at_positive_rate` (PARTIAL: histories
+                                                                            without deposit / withdraw while the rate is zero, whose
+                                                                            rate-update sweeps reach the locker), `savings_time_budget_from_any_state`
+  the restriction is necessary — the code credits a zero-rate window to a locker touched in it
+                                                                          → `zero_rate_window_touched_counterexample` (reproduced, D35)
+  with the three-line repair of D35 the statement holds for ALL histories → `savings_only_for_time_at_positive_rate_repaired`
+* what each accruing call books: `interest` over [clock, now] at the rate in force (old rate for a rate update)
+                                                                          → `locker_calc_books_interest`, `locker_move_books_interest`,
+                                                                            `rate_change_restarts_clock`
+* a rate change restarts the clock (r→0: flag; 0→r: collector stamp; r→r′: stamp) → `rate_change_restarts_clock`
+* zero when no time has elapsed at a non-zero rate / a zero-rate window earns nothing (idle locker, any triggers in the window,
+  switch-on and accrual in one block)                                     → `zero_rate_window_earns_nothing`
+* more frequent triggering cannot earn more, also across a rate change   → `locker_more_frequent_triggering_not_more`,
+                                                                            `accrual_subadditive_across_rate_change`
+(e) the clocks of the x/lend positions (`Model/LendAccrual.lean`: own `LastInteractionTime` and index copy, stored by every handler after
+    `IterateBorrow` / `IterateLends`; no rate stamp — the open interval is accrued at the rate of the moment of the interaction)
+* every interaction restarts the clock: a second accrual in the same block charges nothing whatever the rates have become
+                                                                          → `lend_interaction_restarts_clock`, `lend_reward_interaction_restarts_clock`
+* two interactions (stored index + clock in between) ≤ one + 4·10⁻¹⁸ per unit of principal, interest and reserve share
+                                                                          → `borrow_two_interactions_not_more`
+* `ReBalanceStableRates`: new stable rate = pool's current one or the old one (only within 20 points and below 90 % utilisation)
+                                                                          → `stable_rebalance_spec`
 -/
 namespace Comdex.C18
 open Comdex Comdex.LendRates
@@ -434,7 +466,340 @@ theorem fee_toggle_restarts_clock (s sa sb : St) (ca cb : Ctx) (f : Dec) (pw pw'
     since sb.pair.bt sb.vault.bh sb.vault.bt = cb.now :=
   toggle_restarts_clock s sa sb ca cb f pw pw' x hwl hst hf hx ua ub
 
+/-- **Counterexample — a vault deposited into while the fee is zero is charged the zero-fee window** (reproduced on the unchanged
+tree: first `va` sequence of every harness run, values of `math.Pow` as the real run obtained them; defect D36). Debt 1 000 000 at
+fee 0; after one day the owner deposits 5 units of collateral — `MsgDeposit` re-stamps the vault with the current height
+(x/vault/keeper/msg_server.go:300-301), the flag `BlockHeight = 0` set by `MsgCreate` is lost; after a year the fee is set to 10 %
+and `MsgVaultInterestCalc` is delivered in the same block: 99 641 units of interest are booked for 364 days at the new fee, with ZERO
+seconds at a non-zero fee. The idle vault (same history without the deposit) owes nothing: `fee_toggle_restarts_clock`. -/
+theorem fee_zero_window_touched_counterexample :
+    let s0 : VaultAccrual.St := ⟨true, ⟨0, false, 0, 1700000000⟩, ⟨1000000, 0, 0, 1700000000⟩, none⟩
+    let on : Pair := ⟨100000000000000000, false, 102, 1731536000⟩
+    -- the deposit loses the flag
+    msgDeposit s0 ⟨1700086400, 101⟩ (ofBits 4607182418800017408)
+      = .ok ⟨true, ⟨0, false, 0, 1700000000⟩, ⟨1000000, 0, 101, 1700086400⟩, none⟩ ∧
+    updateFee ⟨true, ⟨0, false, 0, 1700000000⟩, ⟨1000000, 0, 101, 1700086400⟩, none⟩ ⟨1731536000, 102⟩ 100000000000000000
+        (ofBits 4607182418800017408)
+      = some ⟨true, on, ⟨1000000, 0, 101, 1700086400⟩, none⟩ ∧
+    -- interest calculation in the block of the switch-on: 364 days are booked
+    msgCalc ⟨true, on, ⟨1000000, 0, 101, 1700086400⟩, none⟩ ⟨1731536000, 103⟩ (ofBits 4607631163137216092)
+      = .ok ⟨true, on, ⟨1000000, 99641, 103, 1731536000⟩, some 259065626814845018⟩ ∧
+    -- the idle vault: nothing
+    msgCalc ⟨true, on, ⟨1000000, 0, 0, 1700000000⟩, none⟩ ⟨1731536000, 103⟩ (ofBits 4607182418800017408)
+      = .ok ⟨true, on, ⟨1000000, 0, 103, 1731536000⟩, some 0⟩ := by
+  decide +kernel
+
 end vault
+
+/-! # part d: the locker bookkeeping around `CalculationOfRewards` (state level, all histories) -/
+section locker
+open Comdex.Accrual Comdex.LockerAccrual
+
+/-- **Savings are credited only for time at a non-zero rate, at the rate in force, and never twice** — time-budget form, from
+ANY state satisfying the invariant: along every history of create / deposit / withdraw / close / reward-calc / rate update /
+whitelist-on calls at non-decreasing block times (rejected calls skipped, any values of `math.Pow`), for every rate value
+`r ≠ 0`: (seconds for which the locker has been credited savings at rate `r`) + (seconds it could still claim at rate `r` now)
+≤ (seconds for which the saving rate HAS BEEN `r`). Side conditions of the history (`goodHist`): the clock does not run backwards,
+heights are non-zero, rates are not negative, the whitelist is not switched off, the sweep of a rate update reaches the locker
+(calculation succeeds, net fees can pay), and no deposit / withdraw happens while the rate is zero (see the counterexample). -/
+theorem savings_time_budget_from_any_state (r : Dec) (hr : r ≠ 0) (s : St) (g : Ghost) (h : Hist)
+    (hi : Inv r s g) (hg : goodHist s g.last h = true) :
+    (grun r s g h).2.acc + pending r (grun r s g h).1 (grun r s g h).2.last ≤ (grun r s g h).2.pos ∧
+    Inv r (grun r s g h).1 (grun r s g h).2 :=
+  ⟨(inv_run r hr h s g hi hg).2.2.1, inv_run r hr h s g hi hg⟩
+
+/-- the same from the natural start: a whitelisted collector entry without a locker, at time `t0` (the locker is created inside
+the history; budgets start at zero). PARTIAL only because of the `goodHist` restriction "no deposit / withdraw at rate zero". -/
+theorem savings_only_for_time_at_positive_rate (r : Dec) (hr : r ≠ 0) (s : St) (t0 : Int) (h : Hist)
+    (hw : s.wl = true) (h0 : 0 ≤ s.coll.lsr) (hnl : s.locker = none) (hg : goodHist s t0 h = true) :
+    (grun r s ⟨t0, 0, 0⟩ h).2.acc + pending r (grun r s ⟨t0, 0, 0⟩ h).1 (grun r s ⟨t0, 0, 0⟩ h).2.last
+      ≤ (grun r s ⟨t0, 0, 0⟩ h).2.pos :=
+  (savings_time_budget_from_any_state r hr s ⟨t0, 0, 0⟩ h (inv_none r s t0 0 0 hw h0 hnl (le_refl _)) hg).1
+
+/-- **One reward-calc message at a running rate** books exactly `interest` over `[clock, now]` at the rate in force, where
+`clock` is the locker's own stamp or — flag `BlockHeight = 0` — the collector entry's; whole units move from the net fees into the
+balance; the locker is stamped `(height, now)`; the collector entry is not touched; the tracker stays in `[0, 1)`. -/
+theorem locker_calc_books_interest (ops : FloatOps) (s : St) (ctx : Ctx) (l : Locker) (s1 : St) (hv : Live s l)
+    (hne : s.coll.lsr ≠ 0) (h : stepWith ops s ctx .rewardCalc = .ok s1) :
+    0 ≤ ctx.now - clock s l ∧
+    booked s1 = booked s + interest ops l.net s.coll.lsr (ctx.now - clock s l) ∧ s1.coll = s.coll ∧ s1.wl = s.wl ∧
+    0 ≤ s1.tracker.getD 0 ∧ s1.tracker.getD 0 < Dec.one ∧
+    ∃ l1, s1.locker = some l1 ∧ l1.bh = ctx.height ∧ l1.bt = ctx.now ∧ l.ret ≤ l1.ret ∧ l1.net - l.net = l1.ret - l.ret ∧
+      s1.fees = s.fees - (l1.ret - l.ret) :=
+  calc_books ops s ctx l s1 hv hne h
+
+/-- **Deposit (`d > 0`) / withdraw (`d < 0`) at a running rate**: the accrual on the balance BEFORE the movement comes first. -/
+theorem locker_move_books_interest (ops : FloatOps) (s : St) (ctx : Ctx) (l : Locker) (s' : St) (op : Op) (d : Int) (hv : Live s l)
+    (hne : s.coll.lsr ≠ 0) (hop : (op = .deposit d) ∨ (op = .withdraw (-d))) (h : stepWith ops s ctx op = .ok s') :
+    0 ≤ ctx.now - clock s l ∧
+    booked s' = booked s + interest ops l.net s.coll.lsr (ctx.now - clock s l) ∧ s'.coll = s.coll ∧
+    ∃ l', s'.locker = some l' ∧ l'.bh = ctx.height ∧ l'.bt = ctx.now ∧ l.ret ≤ l'.ret ∧ l'.net = l.net + (l'.ret - l.ret) + d :=
+  move_books ops s ctx l s' op d hv hne hop h
+
+/-- **A rate change restarts the clock.** (i) running rate → any rate `nr ≥ 0` (`r → 0`, `r → r′`, also `r → r`): the sweep settles
+`[clock, now]` at the OLD rate, the collector entry gets the new rate and `BlockTime = now`, and the locker's next interval starts
+now — it is stamped `(height, now)`, or flagged `BlockHeight = 0` when the new rate is zero. (ii) `0 → r`: nothing is booked, the
+collector entry is stamped `now`, and a locker carrying the flag has its clock moved to `now`. -/
+theorem rate_change_restarts_clock (ops : FloatOps) (s : St) (ctx : Ctx) (nr : Dec) (l : Locker) (hv : Live s l) (hnr : 0 ≤ nr)
+    (hh : ctx.height ≠ 0) :
+    (s.coll.lsr ≠ 0 → sweepFine s ctx (powOf ops s ctx) = true →
+      ∃ s1, stepWith ops s ctx (.lsrUpdate nr) = .ok s1 ∧ 0 ≤ ctx.now - clock s l ∧
+        booked s1 = booked s + interest ops l.net s.coll.lsr (ctx.now - clock s l) ∧
+        s1.coll.lsr = nr ∧ s1.coll.bt = ctx.now ∧ s1.wl = true ∧ 0 ≤ s1.tracker.getD 0 ∧ s1.tracker.getD 0 < Dec.one ∧
+        ∃ l1, s1.locker = some l1 ∧ (nr ≠ 0 → clock s1 l1 = ctx.now) ∧ (nr = 0 → l1.bh = 0) ∧ l.ret ≤ l1.ret ∧
+          l1.net - l.net = l1.ret - l.ret ∧ s1.fees = s.fees - (l1.ret - l.ret)) ∧
+    (s.coll.lsr = 0 → nr ≠ 0 →
+      stepWith ops s ctx (.lsrUpdate nr) = .ok { s with coll := ⟨nr, ctx.height, ctx.now⟩ } ∧
+      (l.bh = 0 → clock { s with coll := ⟨nr, ctx.height, ctx.now⟩ } l = ctx.now)) :=
+  ⟨fun hne hf => lsr_running_books ops s ctx nr l hv hne hnr hh hf,
+   fun hz hn => ⟨(lsr_switch_on s ctx nr _ hv.wl hz hn).1, fun hb => (lsr_switch_on s ctx nr (powOf ops s ctx) hv.wl hz hn).2 l hv.lk hb⟩⟩
+
+/-- **A zero-rate window earns nothing; zero when no time has elapsed at a non-zero rate.** The rate is switched off at `ca`, any
+number of reward-calc messages arrive during the window (at any times), the rate is switched on again (any `nr > 0`) at `cb`, the
+locker accrues at `cc`: it ends with what it had at the switch-off plus `interest` over `[cb, cc]` at the NEW rate — nothing for
+`[ca, cb]`, however long — and with exactly what it had when the accrual is in the block of the switch-on. (Seeded change s94 —
+the `0 → r` branch no longer stamps the collector entry — breaks exactly `clock s3 l1 = cb.now`.) -/
+theorem zero_rate_window_earns_nothing (ops : FloatOps) (s0 : St) (l0 : Locker) (ca cb cc : Ctx) (nr : Dec) (w : List (Ctx × Op))
+    (hv : Live s0 l0) (hne : s0.coll.lsr ≠ 0) (hfa : sweepFine s0 ca (powOf ops s0 ca) = true) (hha : ca.height ≠ 0)
+    (hw : ∀ p ∈ w, p.2 = Op.rewardCalc) (hnr : 0 < nr) :
+    ∃ s1 l1 s3, stepWith ops s0 ca (.lsrUpdate 0) = .ok s1 ∧ s1.locker = some l1 ∧ s1.coll.lsr = 0 ∧
+      runWith ops s1 w = s1 ∧
+      stepWith ops s1 cb (.lsrUpdate nr) = .ok s3 ∧ s3.locker = some l1 ∧ clock s3 l1 = cb.now ∧ booked s3 = booked s1 ∧
+      ∀ s4, stepWith ops s3 cc .rewardCalc = .ok s4 →
+        booked s4 = booked s1 + interest ops l1.net nr (cc.now - cb.now) ∧ (cc.now = cb.now → booked s4 = booked s1) :=
+  zero_window ops s0 l0 ca cb cc nr w hv hne hfa hha hw hnr
+
+/-- **Triggering the reward calculation more often cannot earn more** (beyond the float slack): two messages at `c1`, `c2`
+against one at `c2`; the second legitimately accrues on the whole units the first one moved into the balance. -/
+theorem locker_more_frequent_triggering_not_more (ops : FloatOps) (s s1 s2 s' : St) (l l1 : Locker) (c1 c2 : Ctx)
+    (hv : Live s l) (hne : s.coll.lsr ≠ 0) (hn63 : l.net ≤ 2 ^ 63) (hh : c1.height ≠ 0) (h12 : c1.now ≤ c2.now)
+    (e1 : stepWith ops s c1 .rewardCalc = .ok s1) (k1 : s1.locker = some l1)
+    (e2 : stepWith ops s1 c2 .rewardCalc = .ok s2) (e' : stepWith ops s c2 .rewardCalc = .ok s') :
+    ((booked s2 : Int) : ℚ) ≤ ((booked s' : Int) : ℚ)
+      + subaddErr ops.E (aF l.net) (ops.pow (xF s.coll.lsr) (yF (c2.now - clock s l)))
+      + ((interest ops l1.net s.coll.lsr (c2.now - c1.now) - interest ops l.net s.coll.lsr (c2.now - c1.now) : Int) : ℚ) := by
+  obtain ⟨_, _, cc1, w1, t1, _, l1', k1', _, _, r1, n1, _⟩ := calc_books ops s c1 l s1 hv hne e1
+  have : l1' = l1 := by rw [k1] at k1'; injection k1' with e; exact e.symm
+  subst this
+  have hv1 : Live s1 l1' := ⟨by rw [w1]; exact hv.wl, by rw [cc1]; exact hv.rate, k1, by have := hv.net; omega, t1⟩
+  obtain ⟨_, b2, _⟩ := calc_books ops s1 c2 l1' s2 hv1 (by rw [cc1]; exact hne) e2
+  obtain ⟨_, b', _⟩ := calc_books ops s c2 l s' hv hne e'
+  rw [cc1] at b2
+  exact two_le_one ops s s1 l l1' c1 c2.now _ _ hv hne hn63 hh h12 e1 k1 b2 b'
+
+/-- **Sub-additivity across a rate change**: a reward-calc at `c1` followed by the rate update at `c2` books at most what the
+rate update alone books at `c2` (both settle at the OLD rate), plus the float slack and the interest on the whole units the
+message moved into the balance; after either path the collector entry carries the new rate and `BlockTime = c2`, so the new rate
+applies from `c2` on in both. -/
+theorem accrual_subadditive_across_rate_change (ops : FloatOps) (s s1 : St) (l l1 : Locker) (c1 c2 : Ctx) (nr : Dec)
+    (hv : Live s l) (hne : s.coll.lsr ≠ 0) (hn63 : l.net ≤ 2 ^ 63) (hh : c1.height ≠ 0) (hh2 : c2.height ≠ 0) (h12 : c1.now ≤ c2.now)
+    (hnr : 0 ≤ nr) (e1 : stepWith ops s c1 .rewardCalc = .ok s1) (k1 : s1.locker = some l1)
+    (f2 : sweepFine s1 c2 (powOf ops s1 c2) = true) (f' : sweepFine s c2 (powOf ops s c2) = true) :
+    ∃ s2 s', stepWith ops s1 c2 (.lsrUpdate nr) = .ok s2 ∧ stepWith ops s c2 (.lsrUpdate nr) = .ok s' ∧
+      s2.coll = s'.coll ∧ s2.coll.lsr = nr ∧ s2.coll.bt = c2.now ∧
+      ((booked s2 : Int) : ℚ) ≤ ((booked s' : Int) : ℚ)
+        + subaddErr ops.E (aF l.net) (ops.pow (xF s.coll.lsr) (yF (c2.now - clock s l)))
+        + ((interest ops l1.net s.coll.lsr (c2.now - c1.now) - interest ops l.net s.coll.lsr (c2.now - c1.now) : Int) : ℚ) := by
+  obtain ⟨_, _, cc1, w1, t1, _, l1', k1', _, _, r1, n1, _⟩ := calc_books ops s c1 l s1 hv hne e1
+  have : l1' = l1 := by rw [k1] at k1'; injection k1' with e; exact e.symm
+  subst this
+  have hv1 : Live s1 l1' := ⟨by rw [w1]; exact hv.wl, by rw [cc1]; exact hv.rate, k1, by have := hv.net; omega, t1⟩
+  obtain ⟨s2, e2, _, b2, a2, a3, _⟩ := lsr_running_books ops s1 c2 nr l1' hv1 (by rw [cc1]; exact hne) hnr hh2 f2
+  obtain ⟨s', e', _, b', a2', a3', _⟩ := lsr_running_books ops s c2 nr l hv hne hnr hh2 f'
+  rw [cc1] at b2
+  have hcoll : s2.coll = s'.coll := by
+    have h2 := step_lsr s1 c2 nr (powOf ops s1 c2) hv1.wl
+    have h' := step_lsr s c2 nr (powOf ops s c2) hv.wl
+    -- both results carry the collector entry written by the update
+    have c2' : s2.coll = ⟨nr, (if nr = 0 then 0 else c2.height), c2.now⟩ := by
+      unfold stepWith at e2; rw [h2] at e2
+      by_cases hn : nr = 0
+      · rw [if_pos hn] at e2
+        cases hit : iter s1 c2 s1.coll.lsr s1.coll.bt false (powOf ops s1 c2) with
+        | none => rw [hit, sweepRes_none] at e2; exact absurd e2 (by simp)
+        | some x => rw [hit, sweepRes_some] at e2; injection e2 with e2; rw [← e2]; simp [hn]
+      · have hp : 0 < s1.coll.lsr ∧ 0 < nr :=
+          ⟨lt_of_le_of_ne hv1.rate (by rw [cc1]; exact Ne.symm hne), lt_of_le_of_ne hnr (Ne.symm hn)⟩
+        rw [if_neg hn, if_neg (by rw [cc1]; exact hne), if_pos hp] at e2
+        cases hit : iter s1 c2 s1.coll.lsr s1.coll.bt true (powOf ops s1 c2) with
+        | none => rw [hit, sweepRes_none] at e2; exact absurd e2 (by simp)
+        | some x => rw [hit, sweepRes_some] at e2; injection e2 with e2; rw [← e2]; simp [hn]
+    have c' : s'.coll = ⟨nr, (if nr = 0 then 0 else c2.height), c2.now⟩ := by
+      unfold stepWith at e'; rw [h'] at e'
+      by_cases hn : nr = 0
+      · rw [if_pos hn] at e'
+        cases hit : iter s c2 s.coll.lsr s.coll.bt false (powOf ops s c2) with
+        | none => rw [hit, sweepRes_none] at e'; exact absurd e' (by simp)
+        | some x => rw [hit, sweepRes_some] at e'; injection e' with e'; rw [← e']; simp [hn]
+      · have hp : 0 < s.coll.lsr ∧ 0 < nr := ⟨lt_of_le_of_ne hv.rate (Ne.symm hne), lt_of_le_of_ne hnr (Ne.symm hn)⟩
+        rw [if_neg hn, if_neg hne, if_pos hp] at e'
+        cases hit : iter s c2 s.coll.lsr s.coll.bt true (powOf ops s c2) with
+        | none => rw [hit, sweepRes_none] at e'; exact absurd e' (by simp)
+        | some x => rw [hit, sweepRes_some] at e'; injection e' with e'; rw [← e']; simp [hn]
+    rw [c2', c']
+  exact ⟨s2, s', e2, e', hcoll, a2, a3, two_le_one ops s s1 l l1' c1 c2.now _ _ hv hne hn63 hh h12 e1 k1 b2 b'⟩
+
+/-- **With the repair of D35** (deposit / withdraw write `BlockHeight = 0` while the rate is zero, as create does — the three-line
+patch in notes/C18.md, `LockerAccrual.stepFix`) **the time budget holds at full strength**: for EVERY history (no restriction on
+deposits and withdrawals), every rate value `r ≠ 0`: seconds credited at `r` + seconds still claimable at `r` ≤ seconds the rate has
+been `r`. On the history of the counterexample the repaired model credits nothing for the window (example below). -/
+theorem savings_only_for_time_at_positive_rate_repaired (r : Dec) (hr : r ≠ 0) (s : St) (t0 : Int) (h : Hist)
+    (hw : s.wl = true) (h0 : 0 ≤ s.coll.lsr) (hnl : s.locker = none) (hg : goodHistFix s t0 h = true) :
+    (grunFix r s ⟨t0, 0, 0⟩ h).2.acc + pending r (grunFix r s ⟨t0, 0, 0⟩ h).1 (grunFix r s ⟨t0, 0, 0⟩ h).2.last
+      ≤ (grunFix r s ⟨t0, 0, 0⟩ h).2.pos :=
+  (inv_runFix r hr h s ⟨t0, 0, 0⟩ (inv_none r s t0 0 0 hw h0 hnl (le_refl _)) hg).2.2.1
+
+/-- **Counterexample — the restriction "no deposit / withdraw while the rate is zero" is necessary; the code credits a zero-rate
+window** (reproduced on the unchanged tree: first `la` sequence of every harness run; values of `math.Pow` as the real run obtained
+them). Locker of 1 000 000 at 10 %; after one day the rate is set to 0 (260 settled, locker flagged `BlockHeight = 0`); a day later
+the owner deposits 1 — the deposit re-stamps the locker with the current height (x/locker/keeper/msg_server.go:191-192), the flag is
+lost; 364 days later the rate is set back to 10 % and `MsgLockerRewardCalc` is sent in the same block: `ReturnsAccumulated` jumps
+from 260 to 99 928 — the whole rest of the window at the new rate, with ZERO seconds at a non-zero rate since the deposit. In the
+time-budget reading: credited at 10 % for 31 536 000 s while the rate has been 10 % for 86 400 s. The idle locker (same history
+without the deposit) stays at 260. -/
+theorem zero_rate_window_touched_counterexample :
+    let s0 : St := ⟨true, ⟨100000000000000000, 100, 1700000000⟩, 2 ^ 200, none, none⟩
+    let pre : Hist := [(⟨1700000000, 101⟩, .create 1000000, none),
+                       (⟨1700086400, 102⟩, .lsrUpdate 0, ofBits 4607183594145394561)]
+    let post : Hist := [(⟨1731622400, 104⟩, .lsrUpdate 100000000000000000, ofBits 4607182418800017408)]
+    let touched : Hist := pre ++ [(⟨1700172800, 103⟩, .deposit 1, ofBits 4607182418800017408)] ++ post
+    let idle : Hist := pre ++ post
+    -- after the switch-off: 260 whole units settled, flag set
+    run s0 pre = ⟨true, ⟨0, 0, 1700086400⟩, 2 ^ 200 - 260, some ⟨1000260, 260, 0, 1700086400⟩, some 979099920399789880⟩ ∧
+    -- touched locker, reward-calc in the block of the switch-on (the power value is the one for 364 days at 10 %)
+    run s0 (touched ++ [(⟨1731622400, 105⟩, .rewardCalc, ofBits 4607631163137216092)])
+      = ⟨true, ⟨100000000000000000, 104, 1731622400⟩, 2 ^ 200 - 99928, some ⟨1099929, 99928, 105, 1731622400⟩,
+         some 244534163344837907⟩ ∧
+    -- idle locker, the same call (the power value is 1.0: zero seconds)
+    run s0 (idle ++ [(⟨1731622400, 105⟩, .rewardCalc, ofBits 4607182418800017408)])
+      = ⟨true, ⟨100000000000000000, 104, 1731622400⟩, 2 ^ 200 - 260, some ⟨1000260, 260, 105, 1731622400⟩,
+         some 979099920399789880⟩ ∧
+    -- the time budget at r = 10 %: violated by the touched history, kept by the idle one
+    (grun 100000000000000000 s0 ⟨1700000000, 0, 0⟩
+        (touched ++ [(⟨1731622400, 105⟩, .rewardCalc, ofBits 4607631163137216092)])).2 = ⟨1731622400, 86400, 31536000⟩ ∧
+    (grun 100000000000000000 s0 ⟨1700000000, 0, 0⟩
+        (idle ++ [(⟨1731622400, 105⟩, .rewardCalc, ofBits 4607182418800017408)])).2 = ⟨1731622400, 86400, 86400⟩ ∧
+    goodHist s0 1700000000 (idle ++ [(⟨1731622400, 105⟩, .rewardCalc, ofBits 4607182418800017408)]) = true ∧
+    goodHist s0 1700000000 touched = false := by
+  decide +kernel
+
+end locker
+
+/-! # part e: the time stamps of the x/lend positions (state level)
+
+A lend / borrow position carries its own clock (`LastInteractionTime`) and its own copy of the index (`GlobalIndex`,
+`ReserveGlobalIndex`); every handler stores `(index returned, now)` after `IterateLends` / `IterateBorrow` (`AccB.after`,
+`AccL.after` of `Model/LendAccrual.lean`, the accrual model of C08). There is NO rate stamp: the rate applied to the open interval
+`[LastInteractionTime, now]` is the rate computed at `now` (utilisation and parameters of that moment, `StableBorrowRate` after
+`ReBalanceStableRates`) — a rate change is never "settled at the old rate"; what holds is stated here. -/
+section lendState
+open Comdex.Lend
+
+/-- **Every interaction restarts the position's clock, whatever happens to the rates afterwards**: after a handler stored the
+result of `IterateBorrow` at `now`, another accrual in the same block — at ANY borrow rate `apr'` and reserve rate `rr'` (the rate
+may have been changed in between by governance, by a utilisation move or by `ReBalanceStableRates`) — charges nothing and leaves
+the indices: the span already accrued never counts again (no double accrual), and zero time yields zero whatever the rate. -/
+theorem lend_interaction_restarts_clock (a : AccB) (r : BorrowAccrual) (now n : Int) (stable : Bool) (apr' rr' : Dec)
+    (hgi : 0 < r.gi) (hrgi : 0 < r.rgi) (hn : 0 ≤ n) (hsr : 0 ≤ a.stableRate) :
+    accrueBorrow (a.after r now) n stable apr' (some rr') now = { ext := .val 0 0, gi := r.gi, rgi := r.rgi } := by
+  have h0 : elapsed now (a.after r now).last = 0 := by
+    show (if now = 0 then 0 else now - now) = 0
+    split <;> simp
+  exact accrueBorrow_zero_elapsed (a.after r now) n stable apr' rr' now hgi hrgi hn hsr h0
+
+/-- **Two interactions never charge more than one** (variable-rate borrow, same rates): interest and reserve share of an accrual
+at `t1` followed — from the stored index and clock — by one at `t2` exceed those of the single accrual at `t2` by at most
+`4·10⁻¹⁸` per unit of principal each. -/
+theorem borrow_two_interactions_not_more (a : AccB) (n : Int) (apr rr : Dec) (t1 t2 : Int)
+    (hl : a.last ≠ 0) (h1 : a.last ≤ t1) (h10 : t1 ≠ 0) (h12 : t1 ≤ t2)
+    (hgi : Dec.one ≤ a.gi) (hrgi : Dec.one ≤ a.rgi) (hn : 0 ≤ n) (hapr : 0 ≤ apr) (hrr : 0 ≤ rr) :
+    ∃ dI1 dR1 dI2 dR2 dI dR g1 rg1 g2 rg2 g rg,
+      accrueBorrow a n false apr (some rr) t1 = { ext := .val dI1 dR1, gi := g1, rgi := rg1 } ∧
+      accrueBorrow (a.after { ext := .val dI1 dR1, gi := g1, rgi := rg1 } t1) n false apr (some rr) t2
+        = { ext := .val dI2 dR2, gi := g2, rgi := rg2 } ∧
+      accrueBorrow a n false apr (some rr) t2 = { ext := .val dI dR, gi := g, rgi := rg } ∧
+      dI1 + dI2 ≤ dI + 4 * n ∧ dR1 + dR2 ≤ dR + 4 * n := by
+  have one_pos : (0 : Int) < Dec.one := by decide
+  have pgi : 0 < a.gi := lt_of_lt_of_le one_pos hgi
+  have prgi : 0 < a.rgi := lt_of_lt_of_le one_pos hrgi
+  have s1 : 0 ≤ t1 - a.last := by omega
+  have s2 : 0 ≤ t2 - t1 := by omega
+  have g1ge : Dec.one ≤ indexNext apr a.gi (t1 - a.last) := le_trans hgi (indexNext_ge apr a.gi _ hapr pgi s1)
+  have rg1ge : Dec.one ≤ indexNext rr a.rgi (t1 - a.last) := le_trans hrgi (indexNext_ge rr a.rgi _ hrr prgi s1)
+  have e1 : elapsed t1 a.last = t1 - a.last := by unfold elapsed; simp [hl]
+  have e2 : elapsed t2 t1 = t2 - t1 := by unfold elapsed; simp [h10]
+  have e3 : elapsed t2 a.last = (t1 - a.last) + (t2 - t1) := by unfold elapsed; simp [hl]
+  have b1 : borrowInterest n apr rr a.gi a.rgi t1 a.last
+      = .ok [indexInterest n apr a.gi (t1 - a.last), indexNext apr a.gi (t1 - a.last),
+             indexInterest n rr a.rgi (t1 - a.last), indexNext rr a.rgi (t1 - a.last)] := by
+    unfold borrowInterest
+    simp [e1, not_lt.mpr s1, Int.ne_of_gt pgi, Int.ne_of_gt prgi]
+  have b2 : borrowInterest n apr rr (indexNext apr a.gi (t1 - a.last)) (indexNext rr a.rgi (t1 - a.last)) t2 t1
+      = .ok [indexInterest n apr (indexNext apr a.gi (t1 - a.last)) (t2 - t1), indexNext apr (indexNext apr a.gi (t1 - a.last)) (t2 - t1),
+             indexInterest n rr (indexNext rr a.rgi (t1 - a.last)) (t2 - t1), indexNext rr (indexNext rr a.rgi (t1 - a.last)) (t2 - t1)] := by
+    unfold borrowInterest
+    simp [e2, not_lt.mpr s2, Int.ne_of_gt (lt_of_lt_of_le one_pos g1ge), Int.ne_of_gt (lt_of_lt_of_le one_pos rg1ge)]
+  have b3 : borrowInterest n apr rr a.gi a.rgi t2 a.last
+      = .ok [indexInterest n apr a.gi ((t1 - a.last) + (t2 - t1)), indexNext apr a.gi ((t1 - a.last) + (t2 - t1)),
+             indexInterest n rr a.rgi ((t1 - a.last) + (t2 - t1)), indexNext rr a.rgi ((t1 - a.last) + (t2 - t1))] := by
+    unfold borrowInterest
+    simp [e3, Int.ne_of_gt pgi, Int.ne_of_gt prgi]
+    omega
+  refine ⟨indexInterest n apr a.gi (t1 - a.last), indexInterest n rr a.rgi (t1 - a.last),
+    indexInterest n apr (indexNext apr a.gi (t1 - a.last)) (t2 - t1), indexInterest n rr (indexNext rr a.rgi (t1 - a.last)) (t2 - t1),
+    indexInterest n apr a.gi ((t1 - a.last) + (t2 - t1)), indexInterest n rr a.rgi ((t1 - a.last) + (t2 - t1)),
+    indexNext apr a.gi (t1 - a.last), indexNext rr a.rgi (t1 - a.last),
+    indexNext apr (indexNext apr a.gi (t1 - a.last)) (t2 - t1), indexNext rr (indexNext rr a.rgi (t1 - a.last)) (t2 - t1),
+    indexNext apr a.gi ((t1 - a.last) + (t2 - t1)), indexNext rr a.rgi ((t1 - a.last) + (t2 - t1)), ?_, ?_, ?_,
+    two_step_le_one_step_plus_rounding n apr a.gi _ a.gi _ _ hn hapr hgi g1ge hgi s1 s2,
+    two_step_le_one_step_plus_rounding n rr a.rgi _ a.rgi _ _ hn hrr hrgi rg1ge hrgi s1 s2⟩
+  · unfold accrueBorrow; simp [b1]
+  · unfold accrueBorrow AccB.after; simp [b2]
+  · unfold accrueBorrow; simp [b3]
+
+/-- **`ReBalanceStableRates`** (the only code that changes the rate OF A POSITION; called by the liquidation modules right after the
+interest up to now has been charged at the old stable rate): the result is the pool's current stable rate or the old rate; it is the
+old rate only when the two are less than 20 points apart and utilisation is below 90 %; and re-balancing twice is re-balancing once. -/
+theorem stable_rebalance_spec (s st u : Dec) :
+    (rebalance s st u = st ∨ (rebalance s st u = s ∧ s < st + perc1 ∧ st < s + perc1 ∧ u < perc2)) ∧
+    rebalance (rebalance s st u) st u = rebalance s st u := by
+  unfold rebalance perc1 perc2
+  simp only [Dec] at s st u ⊢
+  constructor
+  · by_cases h1 : st + 200000000000000000 ≤ s
+    · left; simp [h1]
+    · by_cases h2 : s + 200000000000000000 ≤ st ∨ 900000000000000000 ≤ u
+      · left; simp [h1, h2]
+      · right
+        have e : (if st + 200000000000000000 ≤ s then st else if s + 200000000000000000 ≤ st ∨ 900000000000000000 ≤ u then st else s) = s := by
+          simp [h1, h2]
+        refine ⟨e, ?_, ?_, ?_⟩ <;> omega
+  · by_cases h1 : st + 200000000000000000 ≤ s
+    · have h3 : ¬ (st + 200000000000000000 ≤ st) := by omega
+      simp only [h1, if_true, h3, if_false]
+      split <;> rfl
+    · by_cases h2 : s + 200000000000000000 ≤ st ∨ 900000000000000000 ≤ u
+      · have h3 : ¬ (st + 200000000000000000 ≤ st) := by omega
+        simp only [h1, if_false, h2, if_true, h3]
+        split <;> rfl
+      · simp only [h1, h2, if_false]
+
+/-- the same for a lend position (`IterateLends`): after the handler stored `(index, now)`, a second reward calculation in the
+same block accrues nothing into the tracker whatever the lend rate has become. -/
+theorem lend_reward_interaction_restarts_clock (a : AccL) (r : LendAccrual) (now n : Int) (apr' : Dec)
+    (hgi : 0 < r.gi) (hn : 0 ≤ n) (hapr : 0 ≤ apr') :
+    lendReward n apr' (a.after r now).gi now (a.after r now).last = .ok [0, r.gi] := by
+  have h0 : elapsed now now = 0 := by unfold elapsed; split <;> simp
+  show lendReward n apr' r.gi now now = _
+  unfold lendReward
+  simp only [h0, Int.lt_irrefl, if_false, Int.ne_of_gt hgi]
+  have z := (reward_zero_at_zero_time n apr' r.gi hn hapr hgi).1
+  have f1 : factor1 apr' 0 = Dec.one := by
+    unfold factor1; rw [years_zero, mul_zero' _ hapr]; simp
+  have ix : indexNext apr' r.gi 0 = r.gi := by unfold indexNext; rw [f1]; exact mul_one' _ (le_of_lt hgi)
+  rw [z, ix]
+
+end lendState
 
 /-! ## non-vacuity: the hypotheses of the theorems are satisfiable on ordinary values -/
 section examples
@@ -491,4 +856,80 @@ example : VaultAccrual.msgCalc
   decide +kernel
 
 end examples
+
+/-! non-vacuity for part d (locker bookkeeping) -/
+section lockerExamples
+open Comdex.Accrual Comdex.LockerAccrual
+
+/-- a power function satisfying `FloatOps` (the constant 1.0), to show that the hypotheses of the part-d theorems are satisfiable -/
+def unitOps : FloatOps :=
+  { pow := fun _ _ => (U : Int), E := 1, E_pos := by decide,
+    pow_ge_one := fun _ _ _ _ => le_refl _, pow_zero := fun _ _ => rfl,
+    pow_submult := fun _ _ _ _ _ _ => by
+      have h : (0 : Int) ≤ (U : Int) * (U : Int) := Int.mul_nonneg (Int.natCast_nonneg _) (Int.natCast_nonneg _)
+      show (U : Int) * (U : Int) * ((1 : Nat) : Int) ≤ (U : Int) * (U : Int) * (((1 : Nat) : Int) + 1)
+      exact Int.mul_le_mul_of_nonneg_left (by omega) h }
+
+/-- a live locker at a running rate: hypotheses of `locker_calc_books_interest`, `rate_change_restarts_clock`,
+`zero_rate_window_earns_nothing`, `locker_more_frequent_triggering_not_more`, `accrual_subadditive_across_rate_change` -/
+example : Live ⟨true, ⟨100000000000000000, 100, 1700000000⟩, 1000, some ⟨1000260, 260, 101, 1700000000⟩, some 5⟩
+    ⟨1000260, 260, 101, 1700000000⟩ := ⟨rfl, by decide, rfl, by decide, by decide⟩
+example : stepWith unitOps ⟨true, ⟨100000000000000000, 100, 1700000000⟩, 1000, some ⟨1000260, 260, 101, 1700000000⟩, some 5⟩
+    ⟨1700086400, 102⟩ .rewardCalc
+    = .ok ⟨true, ⟨100000000000000000, 100, 1700000000⟩, 1000, some ⟨1000260, 260, 102, 1700086400⟩, some 5⟩ := by decide +kernel
+example : sweepFine ⟨true, ⟨100000000000000000, 100, 1700000000⟩, 1000, some ⟨1000260, 260, 101, 1700000000⟩, some 5⟩
+    ⟨1700086400, 102⟩ (powOf unitOps ⟨true, ⟨100000000000000000, 100, 1700000000⟩, 1000, some ⟨1000260, 260, 101, 1700000000⟩, some 5⟩
+      ⟨1700086400, 102⟩) = true := by decide +kernel
+/-- the invariant of `savings_time_budget_from_any_state` on a state in the middle of a life: rate running since 1 700 000 000, the
+locker last settled 100 s later, 50 000 s credited so far out of 86 400 s at this rate -/
+example : Inv 100000000000000000 ⟨true, ⟨100000000000000000, 100, 1700000000⟩, 1000, some ⟨1000260, 260, 101, 1700050000⟩, some 5⟩
+    ⟨1700086400, 86400, 50000⟩ := by
+  refine ⟨rfl, by decide, by decide, ?_⟩
+  intro l hl; injection hl with hl; subst hl; exact ⟨fun _ => by decide, fun h => absurd h (by decide)⟩
+/-- a history with every kind of call that satisfies `goodHist` (values of `math.Pow`: 1.0 throughout — the side conditions do not
+depend on them beyond "the calculation succeeds") -/
+example : goodHist ⟨true, ⟨0, 0, 1700000000⟩, 1000, none, none⟩ 1700000000
+    [(⟨1700000010, 101⟩, .create 250000000, none), (⟨1700000020, 102⟩, .rewardCalc, none),
+     (⟨1703456010, 103⟩, .lsrUpdate 50000000000000000, none), (⟨1703456010, 104⟩, .rewardCalc, some (U : Int)),
+     (⟨1704060810, 105⟩, .deposit 7, some (U : Int)), (⟨1704060811, 106⟩, .withdraw 3, some (U : Int)),
+     (⟨1704320010, 107⟩, .lsrUpdate 80000000000000000, some (U : Int)), (⟨1704320010, 108⟩, .wlOn, none),
+     (⟨1704924810, 109⟩, .lsrUpdate 0, some (U : Int)), (⟨1705924810, 110⟩, .lsrUpdate 0, some (U : Int)),
+     (⟨1706924810, 111⟩, .close, none), (⟨1706924810, 112⟩, .create 5, none)] = true := by decide +kernel
+
+/-- the touched history of the counterexample under the REPAIRED step: admissible for the full-strength theorem, the deposit
+keeps the flag, and the reward-calc in the block of the switch-on (power value 1.0: zero seconds) credits nothing -/
+example :
+    let s0 : St := ⟨true, ⟨100000000000000000, 100, 1700000000⟩, 2 ^ 200, none, none⟩
+    let h : Hist := [(⟨1700000000, 101⟩, .create 1000000, none),
+                     (⟨1700086400, 102⟩, .lsrUpdate 0, ofBits 4607183594145394561),
+                     (⟨1700172800, 103⟩, .deposit 1, ofBits 4607182418800017408),
+                     (⟨1731622400, 104⟩, .lsrUpdate 100000000000000000, ofBits 4607182418800017408),
+                     (⟨1731622400, 105⟩, .rewardCalc, ofBits 4607182418800017408)]
+    goodHistFix s0 1700000000 h = true ∧
+    grunFix 100000000000000000 s0 ⟨1700000000, 0, 0⟩ h
+      = (⟨true, ⟨100000000000000000, 104, 1731622400⟩, 2 ^ 200 - 260, some ⟨1000261, 260, 105, 1731622400⟩,
+          some 979099920399789880⟩, ⟨1731622400, 86400, 86400⟩) := by
+  decide +kernel
+
+end lockerExamples
+/-! non-vacuity for part e (lend positions): 5 % variable borrow of 10⁹ from index 1.0, half a year and another half year -/
+section lendExamples
+open Comdex.Lend
+example : accrueBorrow ⟨1, 1000000000000000000, 1000000000000000000, 1700000000, 0⟩ 1000000000 false 50000000000000000
+    (some 10000000000000000) (1700000000 + 15778800)
+    = { ext := .val 25000000000000000000000000 5000000000000000000000000, gi := 1025000000000000000, rgi := 1005000000000000000 } := by
+  decide
+/-- hypotheses of `borrow_two_interactions_not_more` -/
+example : (1700000000 : Int) ≠ 0 ∧ (1700000000 : Int) ≤ 1715778800 ∧ (1715778800 : Int) ≤ 1731557600 ∧
+    Dec.one ≤ (1000000000000000000 : Dec) := by decide
+/-- the second accrual of the same block charges nothing, also at a rate that has meanwhile jumped to 300 % -/
+example : accrueBorrow (AccB.after ⟨1, 1000000000000000000, 1000000000000000000, 1700000000, 0⟩
+      { ext := .val 25000000000000000000000000 5000000000000000000000000, gi := 1025000000000000000, rgi := 1005000000000000000 }
+      1715778800) 1000000000 false 3000000000000000000 (some 10000000000000000) 1715778800
+    = { ext := .val 0 0, gi := 1025000000000000000, rgi := 1005000000000000000 } := by decide
+example : rebalance 300000000000000000 100000000000000000 500000000000000000 = 100000000000000000 ∧
+    rebalance 299999999999999999 100000000000000000 500000000000000000 = 299999999999999999 ∧
+    rebalance 299999999999999999 100000000000000000 900000000000000000 = 100000000000000000 := by decide
+end lendExamples
+
 end Comdex.C18
